@@ -80,10 +80,14 @@ func (g *Gen) opNew(dt string, shape []int) Op {
 
 type pred func(t *tensor.Dense) bool
 
+// maxOperand bounds the size of a tensor that may become an operand again: results of Concat, Stack,
+// Repeat, Outer ... grow, and without a bound a chain of them ends in operations of millions of steps.
+const maxOperand = 512
+
 func (g *Gen) pick(p pred) int {
 	var c, sh []int
 	for i, t := range g.w.slots {
-		if t != nil && (p == nil || p(t)) {
+		if t != nil && t.Shape().TotalSize() <= maxOperand && (p == nil || p(t)) {
 			c = append(c, i)
 			if i < g.w.nshared {
 				sh = append(sh, i)
@@ -136,7 +140,7 @@ func (g *Gen) tainted(i int) bool {
 func (g *Gen) pickWritable(p pred) int {
 	var c []int
 	for i, t := range g.w.slots {
-		if t != nil && (p == nil || p(t)) && !g.tainted(i) {
+		if t != nil && t.Shape().TotalSize() <= 4*maxOperand && (p == nil || p(t)) && !g.tainted(i) {
 			c = append(c, i)
 		}
 	}
@@ -825,7 +829,19 @@ func (g *Gen) genLifecycle(force bool) (Op, bool) {
 	}
 	switch {
 	case k < 3:
-		a := g.pickWritable(nil)
+		a := -1
+		var cand []int
+		for i, t := range w.slots {
+			if t != nil && !g.tainted(i) {
+				cand = append(cand, i)
+				if t.Shape().TotalSize() > maxOperand {
+					a = i // big results are dropped first
+				}
+			}
+		}
+		if a < 0 && len(cand) > 0 {
+			a = cand[r.Intn(len(cand))]
+		}
 		if g.c18 {
 			a = g.pick(func(t *tensor.Dense) bool { return true })
 			if a < w.nshared {
@@ -947,12 +963,14 @@ func (g *Gen) genProduct() (Op, bool) {
 		}
 		return withMode(Op{Name: "MatMul", In: []int{a, b}, Out: g.newSlot()}, t.Shape()[0]*w.get(b).Shape()[1]), true
 	case 5: // Outer
-		a := g.pick(and(fl, func(t *tensor.Dense) bool { return t.Dims() >= 1 && t.Dims() <= 2 }))
+		a := g.pick(and(fl, func(t *tensor.Dense) bool { return t.Dims() >= 1 && t.Dims() <= 2 && t.Shape().TotalSize() <= 24 }))
 		if a < 0 {
 			return Op{}, false
 		}
 		t := w.get(a)
-		b := pickB(func(x *tensor.Dense) bool { return x.Dtype() == t.Dtype() && x.Dims() >= 1 && x.Dims() <= 2 })
+		b := pickB(func(x *tensor.Dense) bool {
+			return x.Dtype() == t.Dtype() && x.Dims() >= 1 && x.Dims() <= 2 && x.Shape().TotalSize() <= 24
+		})
 		return withMode(Op{Name: "Outer", In: []int{a, b}, Out: g.newSlot()}, t.Shape().TotalSize()*w.get(b).Shape().TotalSize()), true
 	case 6, 7: // Dot
 		a := g.pick(fl)
